@@ -88,6 +88,8 @@ fn main() {
         let bound = it["bound"].as_u64().unwrap_or(2) as usize;
         let only_fanout = it["fanout"].as_u64().unwrap_or(0) as usize;
         let cap = it["cap"].as_u64().unwrap_or(200_000) as usize;
+        // wall cap per item: a cap that is hit is reported, what was explored below it is complete in DFS order
+        let cap_ms = it["cap_ms"].as_u64().unwrap_or(30_000) as u128;
         let t0 = std::time::Instant::now();
         let mut stack: Vec<Vec<usize>> = vec![];
         if mode == "replay" {
@@ -107,7 +109,7 @@ fn main() {
         let mut steps = 0u64;
         let mut first_last: Vec<Vec<usize>> = vec![];
         while let Some(prefix) = stack.pop() {
-            if n >= cap {
+            if n >= cap || t0.elapsed().as_millis() > cap_ms {
                 capped = true;
                 break;
             }
